@@ -334,6 +334,10 @@ func runSeqhash(w *mon.W, c05 bool) {
 		if !w.Quick() && i%50 != 0 && n > 20000 {
 			n = 1 + r.Intn(20000)
 		}
+		if w.Quick() && i%100 == 99 {
+			// the quick tier also reaches the upper end of the scope (plasmid- to BAC-sized molecules)
+			n = []int{32768, 65536, 30000 + r.Intn(70001)}[r.Intn(3)]
+		}
 		alpha := "ACGT"
 		if r.Intn(3) == 0 {
 			alpha = oracle.IUPACCodes
